@@ -326,6 +326,8 @@ KNOWN_BAD = {
          "#[derive(Debug, Clone, PartialEq, Difference)]\npub struct D { pub val: i64, pub next: Option<Box<Self>> }\n"),
  'D21': ("a where-clause item over a compound type that a field type needs (the struct's diff enums do not repeat where-clause items)",
          "pub trait Needed {}\nimpl Needed for Vec<i64> {}\n#[derive(Debug, Clone, PartialEq)]\npub struct Needs<T>(pub Vec<T>) where Vec<T>: Needed;\n#[derive(Debug, Clone, PartialEq, Difference)]\npub struct D<T> where Vec<T>: Needed { pub a: Needs<T>, pub b: u8 }\n"),
+ 'D22': ("two exposed structs in one module whose struct name + recurse field name concatenate to the same text (A + bc, Ab + c): the type aliases of exposed structs are emitted at module level",
+         "#[derive(Debug, Clone, PartialEq, Difference)]\npub struct Inner { pub x: i64 }\n#[derive(Debug, Clone, PartialEq, Difference)]\n#[difference(expose)]\npub struct A { #[difference(recurse)] pub bc: Inner, #[difference(recurse)] pub o: Option<Inner> }\n#[derive(Debug, Clone, PartialEq, Difference)]\n#[difference(expose)]\npub struct Ab { #[difference(recurse)] pub c: Inner }\n#[derive(Debug, Clone, PartialEq, Difference)]\n#[difference(expose)]\npub struct Ao { #[difference(recurse)] pub d: Inner }\n"),
  'D7': ("trailing comma inside a difference attribute", "#[derive(Debug, Clone, PartialEq, Difference)]\npub struct D { #[difference(skip,)] pub f0: i64, pub f1: i64 }\n"),
  'D8': ("generic parameter used only behind a reference inside another type", "#[derive(Debug, Clone, PartialEq, Difference)]\npub struct D<'a, T> { pub o: Option<&'a T> }\n"),
  'D9': ("bare reference field", "#[derive(Debug, Clone, PartialEq, Difference)]\npub struct D<'a> { pub o: &'a u8 }\n"),
